@@ -114,6 +114,18 @@ class Interp:
         if tag == "bin":
             a, b = self.run(pr[2]), self.run(pr[3])
             self.n_ops += 1
+            if self.sym and not isinstance(a, p.Expression) \
+                    and not isinstance(b, p.Expression):
+                # number op number: no pymbolic involved; same arithmetic as the
+                # plain run (numpy scalars would give nan where Python goes complex)
+                a = a.item() if isinstance(a, np.generic) else a
+                b = b.item() if isinstance(b, np.generic) else b
+                try:
+                    return _guard(BIN[pr[1]](a, b))
+                except RefSkip:
+                    raise
+                except Exception:
+                    raise PlainUndefined() from None
             if self.sym:
                 if not isinstance(a, p.Expression) and isinstance(b, p.Expression):
                     self.reflected = True
@@ -272,6 +284,9 @@ def symbolic_tree(res, prog):
         return None, it
     except NumberQuotient:
         res.skip("quotient-of-two-numbers(C19)")
+        return None, it
+    except RefSkip:
+        res.skip("refskip:number-too-large")
         return None, it
     except Exception as exc:
         it.construction_error = exc
